@@ -174,10 +174,10 @@ mut('C08', 'alias-order', 'sim.py', None, None, 'C08.alias', edits=[
     dict(old="        self.c_len = h.max_size\n", new="        for lidx, stem in enumerate(stems):\n            if stem >= 0:  # if at a fanout line\n                self.c_locs[lidx], self.c_caps[lidx] = self.c_locs[stem], self.c_caps[stem]\n        self.c_len = h.max_size\n")])
 mut('C08', 'alias-loc-only', 'sim.py', 'self.c_locs[lidx], self.c_caps[lidx] = self.c_locs[stem], self.c_caps[stem]', 'self.c_locs[lidx] = self.c_locs[stem]', 'C08.alias')
 mut('C08', 'c_len-current', 'sim.py', 'self.c_len = h.max_size', 'self.c_len = h.current_size', 'C08.size')
-mut('C08', 'heap-split-size', 'sim.py', 'self.chunks[loc + size] = chunksize - size', 'self.chunks[loc + size] = chunksize', 'C08.heap-conserve')
-mut('C08', 'heap-tail-trim', 'sim.py', '                    del self.released[-1]\n                    self.current_size -= chunksize\n', '                    del self.released[-1]\n', 'C08.heap-conserve')
+mut('C08', 'heap-split-size', 'sim.py', 'self.chunks[loc + size] = chunksize - size', 'self.chunks[loc + size] = chunksize', 'C08.heap-tiling')
+mut('C08', 'heap-tail-trim', 'sim.py', '                    del self.released[-1]\n                    self.current_size -= chunksize\n', '                    del self.released[-1]\n', 'C08.heap-tiling')
 mut('C08', 'heap-max-size', 'sim.py', '        self.max_size = max(self.max_size, self.current_size)\n', '', 'C08.heap-maxsize')
-mut('C08', 'heap-merge-prev', 'sim.py', '                chunksize = size + self.chunks[prev]\n                del self.chunks[loc]\n', '                chunksize = size + self.chunks[prev]\n', 'C08.heap-conserve')
+mut('C08', 'heap-merge-prev', 'sim.py', '                chunksize = size + self.chunks[prev]\n                del self.chunks[loc]\n', '                chunksize = size + self.chunks[prev]\n', 'C08.heap-tiling')
 mut('C08', 'caps-min-dropped', 'wave_sim.py', 'super().__init__(circuit, c_caps=c_caps, c_caps_min=4, a_ctrl=a_ctrl, c_reuse=c_reuse, strip_forks=strip_forks)', 'super().__init__(circuit, c_caps=c_caps, c_caps_min=2, a_ctrl=a_ctrl, c_reuse=c_reuse, strip_forks=strip_forks)', 'C08.alloc')
 mut('C08', 'stem-one-level', 'sim.py', "                while prev_line.driver.kind == '__fork__':\n                    prev_line = prev_line.driver.ins[0]\n", '', 'C08.alias')
 
@@ -302,3 +302,15 @@ mut('C20', 'wire-layer-wrong-child', 'def_file.py', "    def wire(self, args):\n
 mut('C20', 'callback-renamed', 'def_file.py', '    def net_pin(self, args):', '    def netpin(self, args):', 'C20.grammar')
 mut('C20', 'points-via-index', 'def_file.py', "        if len(args) == 1: return args[0].value, 'N'\n        else: return args[0].value, args[1].value.strip()", "        return args[0].value, args[1].value.strip()", ['C20.grammar', 'C20.twins'])
 neutral('C20', 'n-wires-loop-form', 'def_file.py', '        [vv[vtype].extend(locs) for dw in self.routed for vtype, locs in dw.vias.items()]\n        return vv', '        [vv[vtype].extend(locs) for dw in self.routed for vtype, locs in dw.vias.items()]\n        # aggregated per via type\n        return vv')
+
+# ------------------------------------------------------------------ C08 allocator (symbolic path analysis)
+mut('C08', 'heap-merge-nonadjacent', 'sim.py', '            if prev + self.chunks[prev] == loc:  # previous chunk is adjacent to freed one, merge', '            if prev + self.chunks[prev] >= loc:  # previous chunk is adjacent to freed one, merge', 'C08.heap-tiling')
+mut('C08', 'heap-merge-next-cond', 'sim.py', 'if released_idx < len(self.released) and loc + size == self.released[released_idx]:  # next chunk is free, merge', 'if released_idx < len(self.released) and loc + size <= self.released[released_idx]:  # next chunk is free, merge', ['C08.heap-tiling', 'C08.heap-keys'])
+mut('C08', 'heap-split-position', 'sim.py', '                self.chunks[loc + size] = chunksize - size\n                self.released[idx] = loc + size', '                self.chunks[loc + size] = chunksize - size\n                self.released[idx] = loc + chunksize - size', 'C08.heap-released')
+mut('C08', 'heap-exact-fit-not-unlisted', 'sim.py', '            if self.chunks[loc] == size:\n                del self.released[idx]\n                return loc', '            if self.chunks[loc] == size:\n                return loc', 'C08.heap-returned')
+mut('C08', 'heap-returns-bigger-request', 'sim.py', '            if self.chunks[loc] > size:  # split chunk', '            if self.chunks[loc] > size - 2:  # split chunk', ['C08.heap-returned', 'C08.heap-tiling'])
+mut('C08', 'heap-tail-prev-not-unlisted', 'sim.py', '                    del self.chunks[prev]\n                    del self.released[-1]\n', '                    del self.chunks[prev]\n', 'C08.heap-released')
+mut('C08', 'heap-merge-prev-not-unlisted', 'sim.py', '                self.chunks[prev] = chunksize\n                del self.released[released_idx]', '                self.chunks[prev] = chunksize', 'C08.heap-released')
+mut('C08', 'heap-free-not-listed', 'sim.py', '        else:\n            insort_left(self.released, loc)  # put in a new release', '        else:\n            pass', 'C08.heap-released')
+mut('C08', 'heap-merge-next-keeps-entry', 'sim.py', '            self.released[released_idx] = loc\n', '', 'C08.heap-released')
+neutral('C08', 'n-heap-local-name', 'sim.py', 'chunksize', 'csz', count='all')
